@@ -19,6 +19,12 @@ from .read_groups import AbstractReadGrouper
 logger = logging.getLogger('IsoQuant')
 
 
+def format_count(count):
+    # fractional weights are summed in the order of the input records: sums that differ in the last bits only
+    # (1.7249999999999999 vs 1.725) are printed alike
+    return "%.2f" % round(count, 6)
+
+
 @unique
 class CountingStrategy(Enum):
     unique_only = 1
@@ -369,7 +375,7 @@ class AssignedFeatureCounter(AbstractCounter):
                 count = self.feature_counter[feature_id].get(default_group_id)
                 if not self.output_zeroes and count == 0:
                     continue
-                output_file.write("%s\t%.2f\n" % (feature_id, count))
+                output_file.write("%s\t%s\n" % (feature_id, format_count(count)))
 
             with open(self.output_stats_file_name, "w") as f:
                 f.write("__ambiguous\t%d\n" % self.ambiguous_reads)
@@ -390,7 +396,8 @@ class AssignedFeatureCounter(AbstractCounter):
             for group_id in self.feature_counter[feature_id].data.keys():
                 count = self.feature_counter[feature_id].data[group_id]
                 if self.output_grouped_linear:
-                    linear_output_file.write("%s\t%s\t%.2f\n" % (feature_id, self.ordered_groups[group_id], count))
+                    linear_output_file.write("%s\t%s\t%s\n" % (feature_id, self.ordered_groups[group_id],
+                                                                format_count(count)))
                 row_count += count
             if not self.output_zeroes and row_count == 0:
                 continue
@@ -398,7 +405,7 @@ class AssignedFeatureCounter(AbstractCounter):
             if self.output_grouped_matrix:
                 count_values = [self.feature_counter[feature_id].get(self.group_numeric_ids[group_id]) for group_id in
                                 all_groups]
-                output_file.write("%s\t%s\n" % (feature_id, "\t".join(["%.2f" % c for c in count_values])))
+                output_file.write("%s\t%s\n" % (feature_id, "\t".join([format_count(c) for c in count_values])))
 
         output_file.close()
         linear_output_file.close()
